@@ -23,9 +23,11 @@ import (
 // request per line and answers with one JSON line.
 
 type workReq struct {
-	Src    []byte `json:"src"`
-	Chunks []int  `json:"chunks"`
-	Exec   bool   `json:"exec"` // the program may be executed (its results stay within the property's memory bound)
+	Src     []byte `json:"src"`
+	Chunks  []int  `json:"chunks"`
+	EOFData bool   `json:"eofdata,omitempty"` // the file variants' reader returns io.EOF together with the last data
+	FailAt  int    `json:"failat,omitempty"`  // >0: the reader's k-th Read returns an error
+	Exec    bool   `json:"exec"`              // the program may be executed (its results stay within the property's memory bound)
 }
 
 type workRes struct {
@@ -91,7 +93,13 @@ func serve(req workReq) (res workRes) {
 		for _, n := range req.Chunks {
 			sc = append(sc, readStep{N: n})
 		}
-		return &scriptFile{data: append([]byte{}, req.Src...), script: sc, name: "f"}
+		if req.FailAt > 0 {
+			for len(sc) < req.FailAt-1 {
+				sc = append(sc, readStep{N: 4096})
+			}
+			sc = append(sc[:req.FailAt-1:req.FailAt-1], readStep{Err: "fail"})
+		}
+		return &scriptFile{data: append([]byte{}, req.Src...), script: sc, name: "f", eofData: req.EOFData}
 	}
 	var prog *bcl.Prog
 	call("Parse", func() error {
